@@ -1,6 +1,7 @@
 import WfModel.Context
 import WfProofs.ContextCollect
 import WfProofs.CollectConc
+import WfModel.GenCollectShape
 /-!
 # C09 — `collect_events` returns each full set once without losing events
 
@@ -603,3 +604,126 @@ example :
     (acts.filterMap C09Act.started).Nodup ∧
     c09ConcRun [5, 6] acts =
       { buffer := [A 2], flights := [], returned := [(B 1, [A 1, B 1])], dropped := [] } := by decide
+
+/-! ## the concurrent histories are the reducer's: admission and result tick -/
+
+theorem c09_collect_pending_is_add (expected : List Nat) (buf : Nat) (collected : List Ev) (ev : Ev) (r : Res)
+    (h : collectEvents expected buf collected ev = .pending (some r)) : r = .addCollected buf ev := by
+  unfold collectEvents at h
+  split at h
+  · cases h
+  · split at h
+    · split at h
+      · injection h with h; injection h with h; exact h.symm
+      · cases h
+    · cases h
+
+/-- **the history step is the reducer's**: finishing an invocation in `C09Conc` changes the buffer exactly as
+`_process_step_result_tick` changes the step's live buffer when it is given what `collect_events` appended for that
+invocation's snapshot, followed by the step's `StepWorkerResult` -/
+theorem C09_conc_finish_refines_reducer (cfg : Cfg) (pol : Policy) (step worker : Nat) (expected : List Nat)
+    (st : State) (now : Int) (exec : InProg) (others : List C09Flight) (hs : cfg.hasStep step = true)
+    (hf : (st.workers step).inProg.find? (fun w => w.wid == worker) = some exec) :
+    let snap := exec.snapEvents.get 0
+    let live := (st.workers step).collected.get 0
+    let res := (collectEvents expected 0 snap exec.ev).results 0 ++ [.result none]
+    ((processStepResult cfg pol step worker exec.ev res st now).1.workers step).collected.get 0 =
+      (c09Finish expected { buffer := live, flights := others } { ev := exec.ev, snap := snap }).buffer := by
+  intro snap live res
+  cases hc : collectEvents expected 0 snap exec.ev with
+  | empty =>
+    simp only [res, hc, CollectOut.results, List.nil_append, c09Finish, processStepResult, hs, Bool.not_true,
+      Bool.false_eq_true, if_false, hf, List.foldl_cons, List.foldl_nil, applyRes, settle, State.set, if_true,
+      List.any_nil, drain_collected]
+    rfl
+  | complete evs =>
+    simp only [res, hc, CollectOut.results, c09Finish, processStepResult, hs, Bool.not_true,
+      Bool.false_eq_true, if_false, hf, List.cons_append, List.nil_append, List.foldl_cons, List.foldl_nil, applyRes,
+      List.any_cons, List.any_nil, isResult, Bool.or_true, Bool.or_false, if_true, settle, State.set]
+    rw [drain_collected]; exact Collected.get_pop _ _
+  | pending r =>
+    cases r with
+    | none =>
+      simp only [res, hc, CollectOut.results, List.nil_append, c09Finish, processStepResult, hs, Bool.not_true,
+        Bool.false_eq_true, if_false, hf, List.foldl_cons, List.foldl_nil, applyRes, settle, State.set, if_true,
+        List.any_nil, drain_collected]
+      rfl
+    | some r =>
+      have hr := c09_collect_pending_is_add expected 0 snap exec.ev r hc
+      subst hr
+      by_cases hstale : live.length > snap.length
+      · have h1 := (C09_stale_rerun_tick cfg pol step worker exec.ev exec.ev 0 st now exec hs hf hstale).1 0
+        simp only [res, hc, CollectOut.results, List.cons_append, List.nil_append, c09Finish, hstale, if_true]
+        exact h1
+      · simp only [res, hc, CollectOut.results, List.cons_append, List.nil_append, c09Finish, hstale, if_false,
+          processStepResult, hs, Bool.not_true, Bool.false_eq_true, hf, List.foldl_cons, List.foldl_nil, applyRes,
+          Collected.get_touch, settle, State.set, if_true, List.any_nil]
+        have hst : ¬ ((st.workers step).collected.get 0).length > (exec.snapEvents.get 0).length := hstale
+        simp only [hst, if_false, State.set, if_true, List.any_nil, Bool.false_eq_true]
+        simp [State.set, drain_collected, Collected.get_append, Collected.get_touch, live]
+
+/-- non-vacuity: the stale case of the refinement on the state of `C09.spanState` (live `[A2,B2]`, snapshot `[A1]`) -/
+example : (c09Finish [5, 6, 7] { buffer := (C09.spanState.workers 3).collected.get 0, flights := [] }
+    { ev := C09.spanExec.ev, snap := C09.spanExec.snapEvents.get 0 }).buffer =
+    [{ ty := 5, kind := .plain, uid := 5 }, { ty := 6, kind := .plain, uid := 6 }] := by decide
+
+/-- **the history's `start` is the reducer's admission**: whenever `_add_or_enqueue_event` puts an invocation in
+flight (directly or when the queue drains), its snapshot is the step's live buffers at that moment, it carries the
+admitted event, and the live buffers are not changed; a queued event gets no snapshot yet -/
+theorem C09_conc_start_refines_admission (att : Attempt) (step : Nat) (ss : StepState) (nw : Nat) (now : Int) :
+    let r := addOrEnqueue att step ss nw now
+    r.1.collected = ss.collected ∧
+    ∀ x ∈ r.1.inProg, x ∈ ss.inProg ∨ (x.ev = att.ev ∧ x.snapEvents = ss.collected) := by
+  unfold addOrEnqueue
+  split
+  · split
+    · refine ⟨rfl, fun x hx => ?_⟩
+      rcases List.mem_append.mp hx with hx | hx
+      · exact Or.inl hx
+      · simp only [List.mem_singleton] at hx; subst hx; exact Or.inr ⟨rfl, rfl⟩
+    · exact ⟨rfl, fun x hx => Or.inl hx⟩
+  · exact ⟨rfl, fun x hx => Or.inl hx⟩
+
+example : ((addOrEnqueue { ev := { ty := 6, kind := .plain, uid := 2 } } 3
+    { collected := [(0, [{ ty := 5, kind := .plain, uid := 1 }])] } 2 1000).1.inProg.map (fun x => (x.wid, x.snapEvents.get 0))) =
+    [(0, [{ ty := 5, kind := .plain, uid := 1 }])] := by decide
+
+/-! ## the decisions in the source -/
+
+/-- every expression `collect_events`, the collect branches of `_process_step_result_tick` and the admission take a
+decision on, re-read from the current sources (`harness/gen/collect_shape.py`), is the one the model implements:
+`collectEvents` (empty guard, `Counter(expected) - Counter(types)`, `!= Counter([type(ev)])`, `type(ev) in remaining`,
+`pop(0)` per expected type over `collected + [ev]`), `applyRes` (skip once a re-run is scheduled, `len(live) > len(sent)`,
+snapshot := copy of ALL live buffers, re-run on `this_execution.worker_id`, append otherwise; pop only if the step
+completed) and `addOrEnqueue` (snapshot = copy of the live buffers) -/
+theorem C09_collect_source_shape :
+    GenCollectShape.emptyGuard = "not expected" ∧ GenCollectShape.emptyReturns = "return []" ∧
+    GenCollectShape.bufferDefault = "buffer_id or 'default'" ∧
+    GenCollectShape.snapshotBuffer = "step_ctx.state.collected_events.get(buffer_id, [])" ∧
+    GenCollectShape.remaining = "Counter(expected) - Counter([type(e) for e in collected_events])" ∧
+    GenCollectShape.notCompleteTest = "remaining_event_types != Counter([type(ev)])" ∧
+    GenCollectShape.recordTest = "type(ev) in remaining_event_types" ∧
+    GenCollectShape.recorded = "AddCollectedEvent(event_id=buffer_id, event=ev)" ∧
+    GenCollectShape.notCompleteReturns = "return None" ∧ GenCollectShape.notCompleteOrelse = "0" ∧
+    GenCollectShape.pool = "collected_events + [ev]" ∧ GenCollectShape.poolGrouping = "by_type[type(e)].append(e)" ∧
+    GenCollectShape.order = "expected" ∧ GenCollectShape.pick = "total.append(by_type[e_type].pop(0))" ∧
+    GenCollectShape.completed = "DeleteCollectedEvent(event_id=buffer_id)" ∧
+    GenCollectShape.completedReturns = "return total" ∧
+    GenCollectShape.didComplete = "bool([x for x in tick.result if isinstance(x, StepWorkerResult)])" ∧
+    GenCollectShape.addSkipTest = "not step_no_longer_in_progress" ∧ GenCollectShape.addSkipBody = "continue" ∧
+    GenCollectShape.liveBuffer = "state.workers[tick.step_name].collected_events.setdefault(result.event_id, [])" ∧
+    GenCollectShape.sentBuffer = "this_execution.shared_state.collected_events.get(result.event_id, [])" ∧
+    GenCollectShape.staleTest = "len(collected_events) > len(sent_events)" ∧
+    GenCollectShape.staleFlag = "step_no_longer_in_progress = False" ∧
+    GenCollectShape.refreshed =
+      "replace(this_execution.shared_state, collected_events={x: list(y) for x, y in state.workers[tick.step_name].collected_events.items()})" ∧
+    GenCollectShape.refreshedStored = "this_execution.shared_state = updated_state" ∧
+    GenCollectShape.rerunCommand =
+      "CommandRunWorker(step_name=tick.step_name, event=result.event, id=this_execution.worker_id)" ∧
+    GenCollectShape.freshBody = "collected_events.append(result.event)" ∧
+    GenCollectShape.deleteGuard = "did_complete_step" ∧
+    GenCollectShape.deleteBody = "state.workers[tick.step_name].collected_events.pop(result.event_id, None)" ∧
+    GenCollectShape.deleteOrelse = "0" ∧
+    GenCollectShape.admitCopy = "state._deepcopy()" ∧ GenCollectShape.admitSnapshot = "state_copy.collected_events" :=
+  ⟨rfl, rfl, rfl, rfl, rfl, rfl, rfl, rfl, rfl, rfl, rfl, rfl, rfl, rfl, rfl, rfl, rfl, rfl, rfl, rfl, rfl, rfl, rfl, rfl,
+   rfl, rfl, rfl, rfl, rfl, rfl, rfl, rfl⟩
